@@ -51,61 +51,89 @@ def rule_R21(ctx, rep, config="c-lib"):
             rep.cover(p, [f.name])
             key = "%s/%s#%d" % (f.name, arr.split(".")[-1], n)
             ix = pa.steps[-1][1]
-            expr.NAMED[0] = True
-            try:
-                ixs = repr(expr.lin(f, ix, 0, 2))
-                conds = []
-                for (c, pol) in _controlling_conditions(f, i.block.name):
-                    r = _rel(c, pol)
-                    if r is None:
-                        continue
-                    b = loaded_from(f, c.ops[1])
-                    bf = b.last_field() if b is not None else None
-                    conds.append((repr(expr.lin(f, c.ops[0], 0, 2)), r, bf, repr(expr.lin(f, c.ops[1], 0, 2))))
-            finally:
-                expr.NAMED[0] = False
 
-            def bounded(v, lo_needed):
-                lt_start = any(a == v and r == "lt" and bf == "set_core.n_start_sits" for (a, r, bf, _) in conds)
-                ge_start = any(a == v and r == "ge" and bf == "set_core.n_start_sits" for (a, r, bf, _) in conds)
-                lt_all = any(a == v and r == "lt" and bf == "set_core.n_all_dists" for (a, r, bf, _) in conds)
-                return (ge_start and lt_all) if lo_needed else lt_start
-            how = None
-            if const_int(ix) == 0:
-                how = "constant 0"
-            elif arr == "set.dists":
+            def conds_of(raw):
+                expr.NAMED[0] = True
+                try:
+                    out = []
+                    for (c, pol) in raw:
+                        r = _rel(c, pol)
+                        if r is None:
+                            continue
+                        b = loaded_from(f, c.ops[1])
+                        bf = b.last_field() if b is not None else None
+                        out.append((repr(expr.lin(f, c.ops[0], 0, 2)), r, bf, repr(expr.lin(f, c.ops[1], 0, 2))))
+                    return out
+                finally:
+                    expr.NAMED[0] = False
+
+            def named(op):
+                expr.NAMED[0] = True
+                try:
+                    return repr(expr.lin(f, op, 0, 2))
+                finally:
+                    expr.NAMED[0] = False
+
+            def judge(ix, conds, depth=0):
+                """how the index is bounded (text), or (None, reason)"""
+                ixs = named(ix)
+
+                def bounded(v, lo_needed):
+                    lt_start = any(a == v and r == "lt" and bf == "set_core.n_start_sits" for (a, r, bf, _) in conds)
+                    ge_start = any(a == v and r == "ge" and bf == "set_core.n_start_sits" for (a, r, bf, _) in conds)
+                    lt_all = any(a == v and r == "lt" and bf == "set_core.n_all_dists" for (a, r, bf, _) in conds)
+                    return (ge_start and lt_all) if lo_needed else lt_start
+                if const_int(ix) == 0:
+                    return "constant 0", None
                 ixi = f.inst(strip_int_casts(f, ix))
-                # (b) through parent_indexes
-                inner = None
-                if ixi is not None and ixi.op == "load":
-                    ipa = resolve_addr(f, ixi.ops[0])
-                    ilp = loaded_from(f, ipa.root[1]) if ipa.root[0] == "val" else None
-                    if ilp is not None and ilp.last_field() == "set_core.parent_indexes" and ipa.steps and ipa.steps[-1][0] in ("idx", "ptr"):
-                        expr.NAMED[0] = True
-                        try:
-                            inner = repr(expr.lin(f, ipa.steps[-1][1], 0, 2))
-                        finally:
-                            expr.NAMED[0] = False
-                if inner is not None:
-                    how = "parent_indexes[i], n_start_sits <= i < n_all_dists" if bounded(inner, True) else None
-                    if how is None:
-                        rep.violation("R21", key, "the distance of a non-start situation is read as dists[parent_indexes[%s]] without the controlling branches establishing "
-                                      "n_start_sits <= %s < n_all_dists (found: %s)" % (inner, inner, [(a, r, bf) for (a, r, bf, _) in conds if a == inner]), where=i.where(), witness=[i.where()])
-                        continue
-                elif bounded(ixs, False):
-                    how = "i < n_start_sits"
-                elif _loop_bounded(f, ix, i):
-                    how = "loop over the start situations"
-            else:
-                if bounded(ixs, True):
-                    how = "n_start_sits <= i < n_all_dists"
+                # `cond ? i : parent_indexes[i]' / a merged index: every alternative with the conditions of its own edge
+                if ixi is not None and ixi.op in ("phi", "select") and depth < 2 and not _loop_bounded(f, ix, i):
+                    from .r4 import _edge_conditions
+                    alts = []
+                    if ixi.op == "phi":
+                        for (v, pb) in ixi.d["incoming"]:
+                            if v.get("k") != "undef":
+                                alts.append((v, conds + conds_of(_edge_conditions(f, pb, ixi.block.name))))
+                    else:
+                        c_ = f.inst(ixi.ops[0])
+                        for (v, pol_) in ((ixi.ops[1], True), (ixi.ops[2], False)):
+                            alts.append((v, conds + (conds_of([(c_, pol_)]) if c_ is not None and c_.op == "icmp" else [])))
+                    hows = []
+                    for (v, cs) in alts:
+                        h, why = judge(v, cs, depth + 1)
+                        if h is None:
+                            return None, why
+                        hows.append(h)
+                    return " | ".join(sorted(set(hows))), None
+                if arr == "set.dists":
+                    inner = None
+                    if ixi is not None and ixi.op == "load":
+                        ipa = resolve_addr(f, ixi.ops[0])
+                        ilp = loaded_from(f, ipa.root[1]) if ipa.root[0] == "val" else None
+                        if ilp is not None and ilp.last_field() == "set_core.parent_indexes" and ipa.steps and ipa.steps[-1][0] in ("idx", "ptr"):
+                            inner = named(ipa.steps[-1][1])
+                    if inner is not None:
+                        if bounded(inner, True):
+                            return "parent_indexes[i], n_start_sits <= i < n_all_dists", None
+                        return None, ("the distance of a non-start situation is read as dists[parent_indexes[%s]] without the controlling branches establishing "
+                                      "n_start_sits <= %s < n_all_dists (found: %s)" % (inner, inner, [(a, r, bf) for (a, r, bf, _) in conds if a == inner]))
+                    if bounded(ixs, False):
+                        return "i < n_start_sits", None
+                    if _loop_bounded(f, ix, i):
+                        return "loop over the start situations", None
+                else:
+                    if bounded(ixs, True):
+                        return "n_start_sits <= i < n_all_dists", None
+                return None, ("%s[%s] is read without the bound of the three-way decode (dists: index < n_start_sits; parent_indexes: n_start_sits <= index < "
+                              "n_all_dists); the controlling branches establish %s" % (arr.split(".")[-1], ixs, [(a, r, bf) for (a, r, bf, _) in conds if a == ixs] or "nothing about it"))
+            ixs = named(ix)
+            how, why = judge(ix, conds_of(_controlling_conditions(f, i.block.name)))
+            if how is None:
+                rep.violation("R21", key, why, where=i.where(), witness=[i.where()])
+                continue
             if how:
                 kinds[how] = kinds.get(how, 0) + 1
                 rep.ok("R21", key, sample={"read": i.where(), "index": ixs, "bound": how})
-            else:
-                rep.violation("R21", key, "%s[%s] is read without the bound of the three-way decode (dists: index < n_start_sits; parent_indexes: n_start_sits <= index < "
-                              "n_all_dists); the controlling branches establish %s" % (arr.split(".")[-1], ixs, [(a, r, bf) for (a, r, bf, _) in conds if a == ixs] or "nothing about it"),
-                              where=i.where(), witness=[i.where()])
     rep.floor("R21", "element reads of dists / parent_indexes", n, 10)
 
 
